@@ -233,6 +233,13 @@ def run(argv):
     if "--files" in argv:
         fs = argv[argv.index("--files") + 1].split(",")
         ms = [m for m in ms if m["file"] in fs]
+    if "--ids" in argv:
+        want = set(argv[argv.index("--ids") + 1].split(","))
+        ms = [m for m in ms if m["id"] in want]
+        done_path = f"{TMP}/results.json"
+        if os.path.exists(done_path):
+            keep = [r for r in json.load(open(done_path)) if r["id"] not in want]
+            json.dump(keep, open(done_path, "w"))
     if "--limit" in argv:
         import random
         random.Random(1).shuffle(ms)
